@@ -7,7 +7,7 @@ use crate::dag::*;
 use crate::rng::*;
 use crate::wire::*;
 use fidget_core::eval::{BulkEvaluator, Function, MathFunction, Tape, TracingEvaluator};
-use fidget_core::types::Grad;
+use fidget_core::types::{Grad, Interval};
 use fidget_core::var::Var;
 use fidget_core::vm::{GenericVmFunction, VmTrace};
 use fidget_jit::JitFunction;
@@ -77,6 +77,11 @@ pub fn run(seed: u64, count: usize, outdir: &str) -> std::io::Result<i32> {
     let mut distinct = std::collections::HashSet::new();
     let mut samples_out: Vec<String> = vec![];
     let mut cc_hist: BTreeMap<usize, usize> = BTreeMap::new();
+    // evaluators that live for the whole run: what an earlier evaluation left in their trace buffer must not show
+    let mut ll_vm_i = <GenericVmFunction<255> as Function>::new_interval_eval();
+    let mut ll_vm_p = <GenericVmFunction<255> as Function>::new_point_eval();
+    let mut ll_jit_i = <JitFunction as Function>::new_interval_eval();
+    let mut ll_jit_p = <JitFunction as Function>::new_point_eval();
     for ci in 0..count {
         let mut r = rng.fork();
         let cfg = DagCfg {
@@ -102,6 +107,34 @@ pub fn run(seed: u64, count: usize, outdir: &str) -> std::io::Result<i32> {
         let ti = interval_eval(&vm, &dag.vs, &bx).map(|x| x.1);
         let jp = point_eval(&jit, &dag.vs, &p).map(|x| x.1).unwrap_or(None);
         let ji = interval_eval(&jit, &dag.vs, &bx).map(|x| x.1);
+        // ---- the same tapes on the long-lived evaluators: another box / point first, then this one
+        {
+            let bx2 = gen_box(&mut r, nvars, cfg.choice_heavy);
+            let p2: Vec<f32> = (0..nvars).map(|_| gen_tame(&mut r)).collect();
+            macro_rules! reuse { ($f:expr, $ie:expr, $pe:expr, $fresh_i:expr, $fresh_p:expr, $name:expr) => {{
+                let res = catch_unwind(AssertUnwindSafe(|| {
+                    let order = var_order(&$f);
+                    let iv = |b: &Vec<(f32, f32)>| -> Vec<Interval> { order.iter().map(|v| { let (l, u) = b[var_id(*v, &dag.vs) as usize]; Interval::new(l, u) }).collect() };
+                    let pv = |q: &Vec<f32>| -> Vec<f32> { order.iter().map(|v| q[var_id(*v, &dag.vs) as usize]).collect() };
+                    let it = $f.interval_tape(Default::default());
+                    let _ = $ie.eval(&it, &iv(&bx2));
+                    let ti2 = $ie.eval(&it, &iv(&bx)).map(|(_, t)| t.map(|t| t.codes())).ok();
+                    let pt = $f.point_tape(Default::default());
+                    let _ = $pe.eval(&pt, &pv(&p2));
+                    let tp2 = $pe.eval(&pt, &pv(&p)).map(|(_, t)| t.map(|t| t.codes())).ok();
+                    (ti2, tp2)
+                }));
+                match res {
+                    Ok((ti2, tp2)) => {
+                        if let (Some(a), Ok(b)) = (&ti2, &$fresh_i) { if a != b { bad.push(format!("{}-interval trace from a reused evaluator {a:?} differs from a fresh evaluator's {b:?}", $name)); } }
+                        if let Some(a) = &tp2 { if a != &$fresh_p { bad.push(format!("{}-point trace from a reused evaluator {a:?} differs from a fresh evaluator's {:?}", $name, $fresh_p)); } }
+                    }
+                    Err(_) => bad.push(format!("{} reused evaluator panicked (trace)", $name)),
+                }
+            }} }
+            reuse!(vm, ll_vm_i, ll_vm_p, ti, tp, "vm");
+            reuse!(jit, ll_jit_i, ll_jit_p, ji, jp, "jit");
+        }
         check_trace(&tp, cc, "vm-point", &mut bad);
         check_trace(&jp, cc, "jit-point", &mut bad);
         if let Ok(t) = &ti { check_trace(t, cc, "vm-interval", &mut bad); }
